@@ -1,8 +1,8 @@
 (* StmtSem.v — the statement fragment over global variables: pure-expression
    statements, assignments of pure expressions to globals, calls of the
-   one-argument built-ins write(e), toa(e), aton(e) (and the output node
-   itself), blocks, if, if/else and while with pure conditions, nested
-   without bound.  A
+   built-ins write(e), toa(e), aton(e), read() as statements and as the right
+   side of an assignment (and the output node itself), blocks, if, if/else
+   and while with pure conditions, nested without bound.  A
    statement acts on a world: the global bindings, the output written so far
    and the input not yet read.  Its fuelled denotation [ssem] and that
    Sem.eval computes exactly it, with the same fuel. *)
@@ -61,6 +61,21 @@ Definition bop_sem (b : bop) (W : world) (x : value) : world * res value :=
   | BAton => (W, aton_res x)
   end.
 
+(* read(): the next line of the input, or a read error when there is none *)
+Definition read_sem (W : world) : world * res value :=
+  match w_in W with
+  | [] => (W, Fail ErrRead)
+  | l :: rest => ({| w_glob := w_glob W; w_out := w_out W; w_in := rest; w_next := w_next W |}, Ok (VStr l))
+  end.
+
+(* a call of a built-in: nm(e) for write, toa, aton; read() *)
+Definition is_bcall (e : node) : bool :=
+  match e with
+  | NCall (NName nm) [a] => match bop_of_name nm with Some _ => pure a | None => false end
+  | NCall (NName nm) [] => String.eqb nm "read"
+  | _ => false
+  end.
+
 (* a call takes a fresh number for its activation *)
 Definition wbump (W : world) : world :=
   {| w_glob := w_glob W; w_out := w_out W; w_in := w_in W; w_next := w_next W + 1 |}.
@@ -79,14 +94,14 @@ Qed.
 
 Fixpoint wstmt (t : node) : bool :=
   match t with
-  | NAssign (NName g) e => assign_ok g e
+  | NAssign (NName g) e => assign_ok g e || is_bcall e
   | NAssign _ _ => false
   | NBlock l => match l with [] => false | _ => forallb wstmt l end
   | NIf c b => pure c && wstmt b
   | NIfElse c a b => pure c && wstmt a && wstmt b
   | NWhile c b => pure c && wstmt b
   | NWrite e => pure e
-  | NCall (NName nm) [e] => match bop_of_name nm with Some _ => pure e | None => false end
+  | NCall _ _ => is_bcall t
   | _ => pure t
   end.
 
@@ -112,8 +127,17 @@ Fixpoint ssem (n : nat) (W : world) (t : node) {struct n} : option (world * res 
       let pure_case := if Nat.leb (height t) n then Some (W, den (w_glob W) t) else None in
       match t with
       | NAssign (NName g) e =>
-          if Nat.leb (height e) n'
-          then Some (wglob W (fst (sem_simple (w_glob W) t)), snd (sem_simple (w_glob W) t)) else None
+          if pure e then
+            if Nat.leb (height e) n'
+            then Some (wglob W (fst (sem_simple (w_glob W) t)), snd (sem_simple (w_glob W) t)) else None
+          else
+            match ssem n' W e with
+            | Some (W1, Ok y) =>
+                if is_nil y then Some (W1, Fail ErrNil)
+                else Some (wglob W1 (sassoc_set (w_glob W1) g y), Ok y)
+            | Some (W1, Fail err) => Some (W1, Fail err)
+            | None => None
+            end
       | NWrite e =>
           if Nat.leb (height e) n' then
             match den (w_glob W) e with
@@ -132,6 +156,9 @@ Fixpoint ssem (n : nat) (W : world) (t : node) {struct n} : option (world * res 
               else None
           | None => None
           end
+      | NCall (NName nm) [] =>
+          if String.eqb nm "read" && Nat.leb 1 n' && fun_eqb (gval (w_glob W) nm) (Bf nm)
+          then Some (wbump (fst (read_sem W)), snd (read_sem W)) else None
       | NBlock l =>
           (fix go (l : list node) (W : world) : option (world * res value) :=
              match l with
@@ -275,9 +302,12 @@ Proof. reflexivity. Qed.
 
 (* the closure table of the definitional semantics holds the built-ins where Bf says *)
 Definition sem_bf (st : sstate) : Prop :=
-  forall nm b mo id, bop_of_name nm = Some b -> Bf nm = VFun mo id ->
+  (forall nm b mo id, bop_of_name nm = Some b -> Bf nm = VFun mo id ->
     exists lc ln, assoc_get (s_clos st) id =
-      Some {| sc_params := 1; sc_locals := lc; sc_body := bop_node b (NLocal 0 ln); sc_env := None |}.
+      Some {| sc_params := 1; sc_locals := lc; sc_body := bop_node b (NLocal 0 ln); sc_env := None |}) /\
+  (forall mo id, Bf "read" = VFun mo id ->
+    exists lc, assoc_get (s_clos st) id =
+      Some {| sc_params := 0; sc_locals := lc; sc_body := NRead; sc_env := None |}).
 
 Lemma eval_local0 n env st fid x rest ln :
   e_frame env = Some fid -> assoc_get (s_frames st) fid = Some (x :: rest) ->
@@ -331,7 +361,9 @@ Proof.
   { intros Hp H. destruct (Nat.leb_spec (height t) (S n)) as [Hh|Hh]; [|discriminate H].
     injection H as <- <-. exists st. split; [apply eval_pure; assumption|split; reflexivity]. }
   assert (Same : forall st1, s_clos st1 = s_clos st -> sem_bf st1).
-  { intros st1 E nm b mo id H1 H2. rewrite E. exact (Hbf nm b mo id H1 H2). }
+  { intros st1 E. destruct Hbf as [Hb1 Hb2]. split.
+    - intros nm b mo id H1 H2. rewrite E. exact (Hb1 nm b mo id H1 H2).
+    - intros mo id H2. rewrite E. exact (Hb2 mo id H2). }
   destruct t; try (apply Pure; [exact Hw|exact Hs]); try discriminate Hw.
   - (* NIf *)
     cbn [wstmt] in Hw. apply andb_prop in Hw. destruct Hw as [Hc Hb]. cbn [ssem] in Hs. cbn [eval].
@@ -369,9 +401,22 @@ Proof.
     + injection Hs as <- <-. exists st. split; [reflexivity|split; reflexivity].
   - (* NAssign *)
     destruct t1; try discriminate Hw. cbn [wstmt] in Hw. unfold assign_ok in Hw.
-    cbn [ssem] in Hs. destruct (Nat.leb_spec (height t2) n) as [Hh|Hh]; [|discriminate Hs].
-    rewrite (eval_simple (NAssign (NName n0) t2) Hw (S n) env st ltac:(cbn [theight]; lia)).
-    injection Hs as <- <-. cbn [wof_s w_glob]. eexists. split; [reflexivity|]. split; reflexivity.
+    cbn [ssem] in Hs. destruct (pure t2) eqn:Hp2.
+    + destruct (Nat.leb_spec (height t2) n) as [Hh|Hh]; [|discriminate Hs].
+      rewrite (eval_simple (NAssign (NName n0) t2) Hp2 (S n) env st ltac:(cbn [theight]; lia)).
+      injection Hs as <- <-. cbn [wof_s w_glob]. eexists. split; [reflexivity|]. split; reflexivity.
+    + cbn [orb] in Hw.
+      assert (Hw2 : wstmt t2 = true) by (destruct t2; try discriminate Hw; exact Hw).
+      change (eval (S n) (NAssign (NName n0) t2) env st)
+        with (bind (eval n t2 env st) (fun st1 v => assign st1 env (NName n0) v)).
+      destruct (ssem n (wof_s st) t2) as [[W1 [y|err]]|] eqn:E2; try discriminate Hs.
+      * destruct (IH t2 Hw2 env st W1 (Ok y) Hbf E2) as (st1 & E1 & HW1 & HC1). rewrite E1. cbn [ctl_of bind].
+        unfold assign. destruct (is_nil y).
+        -- injection Hs as <- <-. exists st1. split; [reflexivity|split; assumption].
+        -- injection Hs as <- <-. eexists. split; [reflexivity|]. split; [|exact HC1].
+           rewrite <- HW1. reflexivity.
+      * injection Hs as <- <-. destruct (IH t2 Hw2 env st W1 (Fail err) Hbf E2) as (st1 & E1 & HW1 & HC1). rewrite E1.
+        exists st1. split; [reflexivity|split; assumption].
   - (* NBlock *)
     cbn [wstmt] in Hw. rewrite eval_block. rewrite ssem_block in Hs.
     assert (Hall : forallb wstmt l = true) by (destruct l; [discriminate Hw|exact Hw]).
@@ -391,13 +436,44 @@ Proof.
            rewrite E1. exists st1. split; [reflexivity|split; assumption].
   - (* NCall: a built-in *)
     destruct t; try discriminate Hw. destruct args as [|a [|a2 l]]; try discriminate Hw.
-    cbn [wstmt] in Hw. cbn [ssem] in Hs.
+    { (* read() *)
+      cbn [wstmt is_bcall] in Hw. cbn [ssem] in Hs. rewrite Hw in Hs. cbn [andb] in Hs.
+      apply String.eqb_eq in Hw. subst n0.
+      destruct (Nat.leb_spec 1 n) as [H1|H1]; [|discriminate Hs]. cbn [andb] in Hs.
+      destruct (fun_eqb (gval (w_glob (wof_s st)) "read") (Bf "read")) eqn:Ef; [|discriminate Hs].
+      apply fun_eqb_eq in Ef. destruct Ef as [Eg [mo [id Ebf]]]. cbn [wof_s w_glob] in Eg, Hs.
+      destruct (proj2 Hbf mo id Ebf) as [lc Hcl].
+      destruct n as [|n1]; [lia|].
+      change (eval (S (S n1)) (NCall (NName "read") []) env st)
+        with (bind (lookup st env (NName "read")) (fun st2 f =>
+                match f with
+                | VFun _ id0 =>
+                    match assoc_get (s_clos st2) id0 with
+                    | None => Done st2 (Sem.CAbort "no such function")
+                    | Some c =>
+                        if negb (sc_params c =? zlen (@rev value [])) then Done st2 (CErr ErrArity)
+                        else
+                          let locals := repeat VNil (Z.to_nat (sc_locals c - sc_params c)) in
+                          let (st3, fid) := new_frame st2 (rev [] ++ locals) in
+                          catch_return (eval (S n1) (sc_body c) {| e_frame := Some fid; e_closure := sc_env c |} st3)
+                    end
+                | _ => Done st2 (CErr ErrType)
+                end)).
+      cbn [lookup bind]. fold (gval (s_globals st) "read"). rewrite Eg, Ebf, Hcl.
+      cbn [sc_params sc_locals sc_body sc_env rev app zlen List.length Z.of_nat Z.eqb negb new_frame].
+      cbn [eval take_in]. injection Hs as <- <-. unfold read_sem. cbn [wof_s w_in s_in].
+      destruct (s_in st) as [|l rest] eqn:Ein; cbn [catch_return fst snd ctl_of].
+      * eexists. split; [reflexivity|]. split; [|reflexivity].
+        unfold wbump, wof_s; cbn [w_glob w_out w_in w_next s_globals s_out s_in s_next]. rewrite Ein. reflexivity.
+      * eexists. split; [reflexivity|]. split; reflexivity. }
+    { (* nm(e) *)
+    cbn [wstmt is_bcall] in Hw. cbn [ssem] in Hs.
     destruct (bop_of_name n0) as [b|] eqn:Eb; [|discriminate Hw].
     destruct (Nat.leb_spec (height a) n) as [Hh|Hh]; [|discriminate Hs].
     destruct (Nat.leb_spec 2 n) as [H2|H2]; [|discriminate Hs]. cbn [andb] in Hs.
     destruct (fun_eqb (gval (w_glob (wof_s st)) n0) (Bf n0)) eqn:Ef; [|discriminate Hs].
     apply fun_eqb_eq in Ef. destruct Ef as [Eg [mo [id Ebf]]]. cbn [wof_s w_glob] in Eg, Hs.
-    destruct (Hbf n0 b mo id Eb Ebf) as [lc [ln Hcl]].
+    destruct (proj1 Hbf n0 b mo id Eb Ebf) as [lc [ln Hcl]].
     destruct n as [|[|n2]]; try lia.
     change (eval (S (S (S n2))) (NCall (NName n0) [a]) env st)
       with (bind (eval (S (S n2)) a env st) (fun st' v =>
@@ -431,7 +507,7 @@ Proof.
       rewrite E4. injection Hs as <- <-.
       exists st4. split; [|split; [exact HW4|exact HC4]].
       destruct (snd (bop_sem b (wof_s st) x)); reflexivity.
-    + injection Hs as <- <-. exists st. split; [reflexivity|split; reflexivity].
+    + injection Hs as <- <-. exists st. split; [reflexivity|split; reflexivity]. }
   - (* NWrite *)
     cbn [wstmt] in Hw. cbn [ssem] in Hs. destruct (Nat.leb_spec (height t) n) as [Hh|Hh]; [|discriminate Hs].
     cbn [eval]. rewrite (eval_pure t Hw n env st Hh). cbn [wof_s w_glob] in Hs.
